@@ -29,7 +29,7 @@ def gl(n):
 
 def cases(seed, tier):
     rng = rng_for(seed, 'C07')
-    n_rand = 8 if tier == 'quick' else 100
+    n_rand = 8 if tier == 'quick' else 2000
     out = []
     for fam in biv.FAMILIES:
         for th in biv.theta_list(fam, n_rand, rng):
